@@ -47,20 +47,20 @@ type fcEvent struct {
 }
 
 type fcRun struct {
-	mu       sync.Mutex
-	window   int64
-	sWin     int64 // model of the sender's window
-	dataFly  int64
-	queued   int64
-	credFly  int64
-	sent     int64
-	consumed int64
-	order    []string
-	senderAt string
+	mu                    sync.Mutex
+	window                int64
+	sWin                  int64 // model of the sender's window
+	dataFly               int64
+	queued                int64
+	credFly               int64
+	sent                  int64
+	consumed              int64
+	order                 []string
+	senderAt              string
 	updBetweenLoadAndWait int
-	waitsEntered int
-	viol     []string
-	cancelled bool
+	waitsEntered          int
+	viol                  []string
+	cancelled             bool
 }
 
 func (r *fcRun) ev(k string) {
